@@ -192,8 +192,25 @@ def run(ctx):
     rnd("selcap2", "0011", 0, "full", 200, 4, nr)
     rnd("selcap1", "001", 0, "full", 120, 2, nr)
 
+    # callbacks that take (real) time: period boundaries falling while a callback runs must be reported by the
+    # next call (c20_no_expiry_lost); three scripted scenarios, ~1 s each, self-validating against machine load
+    timed_jobs = 0
+    for variant in ("ipc", "select"):
+        for scen in ("tick_deadline", "two_intervals", "own_deadline"):
+            jobs.insert(len(REGRESSIONS), ("timed:%s:%s" % (variant, scen), [exe, "timed", variant, scen]))
+            timed_jobs += 1
+
     r = run_pipelines_by_signature(jobs, driver)
     cleanup()
+    ctx.cov["timed_scenarios"] = {"jobs": timed_jobs, "process_calls_checked": r["extra"].get("timed_process_calls", 0),
+                                  "unestablished": r["extra"].get("timed_unestablished", 0)}
+    if r["extra"].get("timed_unestablished", 0) >= timed_jobs:
+        ctx.violation("none of the timed scenarios could be established (machine too slow in all attempts): the clause "
+                      "'an expiry during the callbacks is reported by the next call' was not tied to the code in this run",
+                      {"obligation": "G3 timed tie of model/WaitSet.v (t_call) with deadline_queue.rs", "how_to_rerun": exe + " timed ipc tick_deadline | " + driver},
+                      no_input=True)
+    elif r["extra"].get("timed_unestablished", 0):
+        ctx.notes.append("%d of %d timed scenarios could not be established (machine load); the others ran" % (r["extra"]["timed_unestablished"], timed_jobs))
 
     # the two probes that need many descriptors
     probes = {}
@@ -231,8 +248,11 @@ def run(ctx):
                 "1022/1023 ballast intervals so that the real capacity 1024 is hit) and on posix_select behind a "
                 "capacity-1/2/3 shim; random: seeded histories up to 200 operations with 4 listeners on 2 services. "
                 "distinct = distinct (reactor check order, free capacity, layout, history) ignoring the service variant; "
-                "non-trivial = at least one callback was delivered. Periods are 1 ns (always expired) and 1 h (never); "
-                "real timing is not covered." % (L, LF),
+                "non-trivial = at least one callback was delivered. Periods are 1 ns (always expired) and 1 h (never). "
+                "Real time: 3 scripted scenarios x 2 reactors (interval+deadline, two intervals, a deadline expiring during "
+                "its own callback; periods 100..400 ms, callbacks that sleep across period boundaries, every clock read at "
+                "least 25 ms away from any boundary or the attempt is discarded and repeated) replayed on the extracted timed "
+                "deadline-queue model and on its boundary-arithmetic oracle." % (L, LF),
         "exhaustive": False,
     })
     samples = []
@@ -283,7 +303,7 @@ def run(ctx):
                           {"broken": ctx.broken, "searched": "all histories above agree with the reference specification"}, no_input=True)
     ctx.assumptions = [
         "theorems are about the Gallina model coq/model/WaitSet.v; tie = observational + internal-state correspondence (G3) on the histories listed in coverage",
-        "time is abstract: a deadline/interval is expired at every processing call iff its period is <= 1 ns; DeadlineQueue start_time/previous_iteration and reset are not modelled (real timing not covered)",
+        "untimed part: a deadline/interval is expired at every processing call iff its period is <= 1 ns; timed part (t_call, c20_no_expiry_lost): DeadlineQueue with start_time/previous_iteration and callbacks that take time, tied by 6 real-time scenarios; DeadlineQueue::reset (notified deadline attachment) is not in the timed model",
         "c20_exact assumes at most rmaxev = Epoll::max_wait_events() = 512 descriptors are ready in one call (probe epoll512 confirms the bound is real); no bound for the select reactor",
         "on Linux ipc::Service and local::Service both use Epoll; the posix_select reactor is exercised through a custom service variant; its capacity paths through a capacity shim (harness/g3/c20/src/variants.rs) and through ballast intervals at the real capacity",
         "listeners are level-triggered: a notified listener stays ready until try_wait consumes its events (the harness callbacks consume or not exactly as the model's op says)",
